@@ -109,6 +109,11 @@ int cp_phpe_enc(bn_t c, const bn_t m, const bn_t pub) {
 		return RLC_ERR;
 	}
 
+	/* The plaintext space is [0, n - 1]. */
+	if (bn_sign(m) == RLC_NEG || bn_cmp(m, pub) != RLC_LT) {
+		return RLC_ERR;
+	}
+
 	RLC_TRY {
 		bn_new(g);
 		bn_new(r);
